@@ -1457,6 +1457,8 @@ class Interp:
             refine_false(s_false)
         s_true.guards.append((test, True))
         s_false.guards.append((test, False))
+        s_true.trace.append(Event('guard', (test, True), test, s_true.frame.func))
+        s_false.trace.append(Event('guard', (test, False), test, s_false.frame.func))
         return [(True, s_true), (False, s_false)]
 
     def truthiness(self, v: AVal, st: State, test):
